@@ -1694,6 +1694,11 @@ pub fn explore_session(
 }
 
 pub fn replay_session(w: &Value) -> Result<(bool, String), String> {
+    if w["logging"] == json!(true) {
+        let mut w2 = w.clone();
+        w2["logging"] = json!(false);
+        return crate::engine::logging::with_logging(|| replay_session(&w2));
+    }
     prepare_process();
     let focus = if w["focus"].as_str() == Some("C17") { Focus::C17 } else { Focus::C16 };
     let name = w["session"].as_str().ok_or("session")?;
